@@ -93,6 +93,8 @@ def worker(repo, dump_bin, L, kw, out, timeout_s, part="0/1", only=""):
     # O6 a blank line before / after
     obs.append(("blank-line-before", rel_prepend([nl]) + [Or(nl == 10, nl == 13), accA], Not(And(accB, same_kids))))
     pi, pn = (int(x) for x in part.split("/"))
+    # O7 a stray token after a complete transaction is an error, never silently skipped: A + " @" is rejected
+    obs.append(("stray-token-rejected", rel_append([BitVecVal(32, 8), BitVecVal(64, 8)]) + [accA], accB))
     # vacuity: some accepted A exists for this keyword within L
     s = SolverFor("QF_BV")
     s.set("timeout", int(timeout_s * 1000))
